@@ -12,7 +12,7 @@ theorem fs_get_nil (p : String) : Fs.get [] p = none := rfl
 theorem fs_get_cons (e : String × Node) (fs : Fs) (p : String) :
     Fs.get (e :: fs) p = if e.1 = p then some e.2 else Fs.get fs p := by
   unfold Fs.get
-  by_cases h : e.1 = p <;> simp [List.find?_cons, h]
+  by_cases h : e.1 = p <;> simp [h]
 
 theorem fs_get_append_none (fs : Fs) (e : String × Node) (p : String) (h : Fs.get fs p = none) :
     Fs.get (fs ++ [e]) p = if e.1 = p then some e.2 else none := by
@@ -41,10 +41,7 @@ theorem fs_get_map_ne (fs : Fs) (p q : String) (n : Node) (h : q ≠ p) :
     rw [List.map_cons, fs_get_cons, fs_get_cons, ih]
     by_cases hx : x.1 = p
     · have h1 : ¬ p = q := fun hh => h hh.symm
-      have h2 : ¬ x.1 = q := fun hh => h (hh.symm.trans hx)
       simp [hx, h1]
-      intro hh
-      exact absurd hh h1
     · simp [hx]
 
 theorem fs_get_map_same (fs : Fs) (p : String) (n : Node) (h : (Fs.get fs p).isSome) :
@@ -167,12 +164,17 @@ theorem cloneOpen_flags (o : CliFlags) :
       some { read := o.verifyOutput || o.seedOutput, write := true, create := o.force || o.seedOutput,
              createNew := !o.force && !o.seedOutput, truncate := false } := rfl
 
-theorem compressOpen_flags (o : CliFlags) :
-    OpenFlags.ofExprs compressOpen o =
-      some { read := true, write := true, create := o.force, createNew := !o.force, truncate := o.force } := rfl
+/-- The flags `compress_cmd` opens the output with. -/
+def compressFlags (o : CliFlags) : OpenFlags :=
+  { read := true, write := true, create := o.force, createNew := !o.force, truncate := o.force }
 
-theorem tempOpen_flags (o : CliFlags) :
-    OpenFlags.ofExprs tempOpen o =
-      some { read := false, write := true, create := true, createNew := false, truncate := true } := rfl
+/-- The flags the temp file is opened with. -/
+def tempFlags : OpenFlags :=
+  { read := false, write := true, create := true, createNew := false, truncate := true }
+
+theorem compressOpen_flags (o : CliFlags) :
+    OpenFlags.ofExprs compressOpen o = some (compressFlags o) := rfl
+
+theorem tempOpen_flags (o : CliFlags) : OpenFlags.ofExprs tempOpen o = some tempFlags := rfl
 
 end Bita.Proofs
